@@ -1,8 +1,314 @@
 import SdcModel.Http
+import SdcModel.Proofs.Http
 import SdcModel.Generated.Codings
+/-!
+# C17 — HTTP body framing and content coding are lossless and honour negotiation
+Property theorems only. Model: `SdcModel/Http.lean` (+ `Basic/ChunkHex.lean`); registry and reader window:
+`Generated/Codings.lean` (regenerated from `CompressionHandler` / `HTTPReader._read_until` on every run).
+-/
 namespace Sdc.C17
-open Sdc.Http
+open Sdc.Http Sdc.ChunkHex
 
-example : dechunk 16 (mkChunks 3 [104, 101, 108, 108, 111]) = .ok ([104, 101, 108, 108, 111], []) := by decide
+/-! ### chunked framing -/
+
+/-- the reader returns exactly the body the writer framed — for every byte string, every chunk size the reader's
+    `w`-byte size-line window can hold (`w = 16`: `1 ≤ n < 16^14 = 2^56`), and any pipelined data behind the body -/
+theorem dechunk_mkChunks (w n : Nat) (hn : 1 ≤ n) (hw : 2 ≤ w) (hn' : n < 16 ^ (w - 2)) (body tail : Bytes) :
+    dechunk w (mkChunks n body ++ tail) = .ok (body, tail) := by
+  unfold dechunk mkChunks
+  apply dechunkF_mono w (body.length + 1)
+  · exact dechunkF_mkChunksF w n hn hw hn' _ body tail (by omega)
+  · have := mkChunksF_length_ge n (body.length + 1) body (by omega) hn
+    simp only [List.length_append]; omega
+
+/-- the same for the window the running code uses -/
+theorem dechunk_mkChunks_generated (n : Nat) (hn : 1 ≤ n) (hn' : n < 16 ^ 14) (body : Bytes) :
+    dechunk Generated.Codings.headerWindow (mkChunks n body) = .ok (body, []) := by
+  have := dechunk_mkChunks Generated.Codings.headerWindow n hn (by decide)
+    (by have : Generated.Codings.headerWindow - 2 = 14 := by decide
+        rw [this]; exact hn') body []
+  simpa using this
+
+/-- the bound is sharp: a chunk of `16^14` bytes gets a 15 digit size line, which the 16 byte window cannot hold -/
+theorem window_bound_sharp : (toHexBytes (16 ^ 14)).length + 2 > Generated.Codings.headerWindow := by decide
+
+/-- what `mk_chunks` writes is an RFC 7230 chunked-body, for every body and every chunk size ≥ 1 -/
+theorem mkChunks_wellformed (n : Nat) (hn : 1 ≤ n) (body : Bytes) : isChunkedBody (mkChunks n body) = true := by
+  unfold isChunkedBody mkChunks
+  apply isChunkedF_mono (body.length + 1)
+  · exact isChunkedF_mkChunksF n hn _ body (by omega)
+  · have := mkChunksF_length_ge n (body.length + 1) body (by omega) hn
+    omega
+
+/-- totality of the reader: every byte string gives a body or `DechunkError`; the loop bound (stream length + 1
+    passes) is never the reason, i.e. the loop terminates because every pass consumes input -/
+theorem dechunk_total (w : Nat) (s : Bytes) :
+    (∃ body rest, dechunk w s = .ok (body, rest)) ∨ dechunk w s = .error .dechunk := by
+  unfold dechunk
+  cases h : dechunkF w (s.length + 1) s with
+  | ok r => exact Or.inl ⟨r.1, r.2, rfl⟩
+  | error e =>
+    rcases dechunkF_err _ _ _ _ h with he | he
+    · subst he; exact Or.inr rfl
+    · subst he; exact absurd h (dechunkF_no_fuel w _ s (by omega))
+
+/-- a successful read never needs more passes than the stream is long: any larger bound gives the same result -/
+theorem dechunk_bound_irrelevant (w g : Nat) (s : Bytes) (hg : s.length + 1 ≤ g) (r : Bytes × Bytes)
+    (h : dechunk w s = .ok r) : dechunkF w g s = .ok r :=
+  dechunkF_mono w _ g s r h hg
+
+/-- the unread rest is a proper suffix: a successful read consumed at least the terminating chunk -/
+theorem dechunk_consumes (w : Nat) (s body rest : Bytes) (h : dechunk w s = .ok (body, rest)) : rest.length < s.length := by
+  unfold dechunk at h
+  generalize s.length + 1 = f at h
+  induction f generalizing s body rest with
+  | zero => simp [dechunkF] at h
+  | succ f ih =>
+    simp only [dechunkF] at h
+    split at h
+    · cases h
+    · rename_i dat r last hrc
+      have hc := readChunk_consumes _ _ _ _ _ hrc
+      split at h
+      · injection h with h; injection h with _ h2; subst h2; exact hc
+      · split at h
+        · rename_i more r' hrec
+          injection h with h; injection h with _ h2; subst h2
+          have := ih r more r' hrec
+          omega
+        · cases h
+
+/-! ### negotiation -/
+
+/-- a coding is chosen only if it is enabled locally and the header declares it with a weight > 0
+    (weight = explicit q-value of the last element naming the coding, 1 if it has none) -/
+theorem choice_sound (h : Str) (sup : List Str) (c : Str) (hc : choose (parseHeader h) sup = some c) :
+    c ∈ sup ∧ ∃ q, weightOf h c = some q ∧ q.pos = true := by
+  unfold choose at hc
+  have hm := List.mem_of_find?_eq_some hc
+  have hp := List.find?_some hc
+  exact ⟨by simpa using hp, mem_parseHeader h c hm⟩
+
+/-- a coding declared with `q=0` (or any non-positive weight) is never chosen, whatever else the header says -/
+theorem q0_never_chosen (h : Str) (sup : List Str) (c : Str) (q : Q) (hq : weightOf h c = some q) (h0 : q.pos = false) :
+    choose (parseHeader h) sup ≠ some c := by
+  intro hc
+  obtain ⟨_, q', hq', hpos⟩ := choice_sound h sup c hc
+  rw [hq] at hq'
+  injection hq' with hq'
+  subst hq'
+  rw [h0] at hpos
+  cases hpos
+
+/-- no header, or an empty one: nothing is chosen, the message goes out uncoded -/
+theorem no_header_no_coding (sup : List Str) : choose (parseHeader []) sup = none := by
+  simp [parseHeader, headerDict, elements, sortDesc, choose]
+
+/-- request path and response path choose with the same function: what is sent carries a Content-Encoding only if
+    that coding is a candidate (declared by the peer) and enabled locally -/
+theorem sent_coding_negotiated (r : Registry) (cands sup : List Str) (chunk : Nat) (body : Bytes) (h : Hdrs) (wire : Bytes)
+    (c : Str) (he : encodeMessage r cands sup chunk body = .ok (h, wire)) (hc : h.contentEncoding = some c) :
+    c ∈ cands ∧ c ∈ sup := by
+  obtain ⟨z, _, hz⟩ := encodeMessage_ok r cands sup chunk body h wire he
+  rcases hz with ⟨h1, _, _⟩ | ⟨c', codec, h1, h2, _, _⟩
+  · rw [h1] at hc; cases hc
+  · rw [h1] at hc; injection hc with hc; subst hc
+    unfold choose at h2
+    exact ⟨List.mem_of_find?_eq_some h2, by simpa using List.find?_some h2⟩
+
+/-- response path: `do_POST` codes the response only with a coding the request's Accept-Encoding declares with q > 0 -/
+theorem response_coding_declared (r : Registry) (sup : List Str) (chunk : Nat) (ae : Option Str) (body : Bytes) (h : Hdrs)
+    (wire : Bytes) (c : Str) (he : respond r sup chunk ae body = .ok (h, wire)) (hc : h.contentEncoding = some c) :
+    c ∈ sup ∧ ∃ q, weightOf (ae.getD []) c = some q ∧ q.pos = true := by
+  have := sent_coding_negotiated r _ sup chunk body h wire c he hc
+  exact ⟨this.2, mem_parseHeader _ c this.1⟩
+
+/-! ### content coding -/
+
+/-- **request path**: what `SoapClient._send_soap_request` puts on the wire is read back by
+    `HTTPReader.read_request_body` as the original bytes — every body, every chunk size in the reader's window (or no
+    chunking), every coding choice, provided the receiver has the chosen coding enabled -/
+theorem request_roundtrip (w : Nat) (hw : 2 ≤ w) (r : Registry) (hl : CodecsLossless r) (hne : NamesNonEmpty r)
+    (supS requestEncs supR : List Str) (chunk : Nat) (hchunk : chunk < 16 ^ (w - 2)) (xml : Bytes) (h : Hdrs) (wire : Bytes)
+    (hs : sendRequest r supS requestEncs chunk xml = .ok (h, wire))
+    (hacc : ∀ c, h.contentEncoding = some c → (r.effective supR).contains c = true) :
+    readRequestBody w r supR h wire = .ok (some xml) := by
+  unfold sendRequest at hs
+  cases he : encodeMessage r requestEncs supS chunk xml with
+  | error e => simp [he] at hs
+  | ok p =>
+    obtain ⟨h0, wire0⟩ := p
+    simp only [he] at hs
+    injection hs with hs; injection hs with hh hwire
+    subst hwire
+    obtain ⟨z, hfr, hz⟩ := encodeMessage_ok r requestEncs supS chunk xml h0 wire0 he
+    have hce : h.contentEncoding = h0.contentEncoding := by subst hh; rfl
+    have hte : h.transferEncoding = h0.transferEncoding := by subst hh; rfl
+    have hcl : h.contentLength = h0.contentLength := by subst hh; rfl
+    have hz' : (h0.contentEncoding = none ∧ z = xml) ∨
+        ∃ c codec, h0.contentEncoding = some c ∧ r.getHandler c = .ok codec ∧ z = codec.enc xml := by
+      rcases hz with ⟨a, b, _⟩ | ⟨c, codec, a, _, b, d⟩
+      · exact Or.inl ⟨a, b⟩
+      · exact Or.inr ⟨c, codec, a, b, d⟩
+    have hdec0 := decode_encoded r hl hne requestEncs supS supR chunk xml h0 wire0 he (by rw [← hce]; exact hacc) z hz'
+    have hdec : decodeBody r supR h (some z) = .ok (some xml) := by
+      unfold decodeBody at hdec0 ⊢; rw [hce]; exact hdec0
+    unfold readRequestBody Hdrs.isChunked
+    by_cases hc : chunk > 0
+    · simp only [hc, if_true] at hfr
+      obtain ⟨h1, _, h3⟩ := hfr
+      rw [hte, h1]
+      simp only [chunked_isChunked, if_true]
+      subst h3
+      have := C17.dechunk_mkChunks w chunk (by omega) hw hchunk z []
+      simp only [List.append_nil] at this
+      rw [this]
+      exact hdec
+    · simp only [hc, if_false] at hfr
+      obtain ⟨h1, h2, h3⟩ := hfr
+      rw [hte, h1, hcl, h2]
+      subst h3
+      simp only [Bool.false_eq_true, if_false, pyRead_all]
+      exact hdec
+
+/-- **response path**: what `do_POST` writes, passed through the chunked reader of the HTTP client, is decoded by
+    `HTTPReader.read_response_body` to the bytes the component returned -/
+theorem response_roundtrip (w : Nat) (hw : 2 ≤ w) (r : Registry) (hl : CodecsLossless r) (hne : NamesNonEmpty r)
+    (supS supC : List Str) (chunk : Nat) (hchunk : chunk < 16 ^ (w - 2)) (ae : Option Str) (body : Bytes) (h : Hdrs)
+    (wire : Bytes) (hs : respond r supS chunk ae body = .ok (h, wire))
+    (hacc : ∀ c, h.contentEncoding = some c → (r.effective supC).contains c = true) :
+    ∃ payload, clientTransport w h wire = .ok payload ∧ readResponseBody r supC h payload = .ok (some body) := by
+  unfold respond at hs
+  obtain ⟨z, hfr, hz⟩ := encodeMessage_ok r _ supS chunk body h wire hs
+  have hz' : (h.contentEncoding = none ∧ z = body) ∨
+      ∃ c codec, h.contentEncoding = some c ∧ r.getHandler c = .ok codec ∧ z = codec.enc body := by
+    rcases hz with ⟨a, b, _⟩ | ⟨c, codec, a, _, b, d⟩
+    · exact Or.inl ⟨a, b⟩
+    · exact Or.inr ⟨c, codec, a, b, d⟩
+  have hdec := decode_encoded r hl hne _ supS supC chunk body h wire hs hacc z hz'
+  refine ⟨z, ?_, ?_⟩
+  · unfold clientTransport Hdrs.isChunked
+    by_cases hc : chunk > 0
+    · simp only [hc, if_true] at hfr
+      obtain ⟨h1, _, h3⟩ := hfr
+      rw [h1]; subst h3
+      have := C17.dechunk_mkChunks w chunk (by omega) hw hchunk z []
+      simp only [List.append_nil] at this
+      simp [chunked_isChunked, this]
+    · simp only [hc, if_false] at hfr
+      obtain ⟨h1, _, h3⟩ := hfr
+      rw [h1]; subst h3; simp
+  · unfold readResponseBody
+    by_cases hc : chunk > 0
+    · simp only [hc, if_true] at hfr
+      rw [hfr.2.1]; exact hdec
+    · simp only [hc, if_false] at hfr
+      rw [hfr.2.1]
+      simp only [pyRead_all]; exact hdec
+
+/-- a body that arrives with a Content-Encoding is only ever returned as the output of the registered decoder of
+    exactly that coding, and only if the coding is enabled — nothing else can come out (no misinterpretation) -/
+theorem decoded_only_by_declared (w : Nat) (r : Registry) (sup : List Str) (h : Hdrs) (wire : Bytes) (b : Option Bytes)
+    (enc : Str) (hr : readRequestBody w r sup h wire = .ok b) (he : h.contentEncoding = some enc) (hne : enc ≠ []) :
+    (r.effective sup).contains enc = true ∧
+      ∃ codec payload y, r.getHandler enc = .ok codec ∧ codec.dec payload = some y ∧ b = some y := by
+  obtain ⟨body, hd⟩ := readRequestBody_ok w r sup h wire b hr
+  obtain ⟨hc, codec, payload, y, _, hg, hy, hb⟩ := decodeBody_ok r sup h body b enc hd he hne
+  exact ⟨hc, codec, payload, y, hg, hy, hb⟩
+
+/-- a request in a coding that is not enabled is rejected: no body is returned -/
+theorem unsupported_rejected (w : Nat) (r : Registry) (sup : List Str) (h : Hdrs) (wire : Bytes) (enc : Str)
+    (he : h.contentEncoding = some enc) (hne : enc ≠ []) (hu : (r.effective sup).contains enc = false) :
+    ∀ b, readRequestBody w r sup h wire ≠ .ok b := by
+  intro b hr
+  have := (decoded_only_by_declared w r sup h wire b enc hr he hne).1
+  rw [hu] at this; cases this
+
+/-- … likewise a coding without a registered handler -/
+theorem unregistered_rejected (w : Nat) (r : Registry) (sup : List Str) (h : Hdrs) (wire : Bytes) (enc : Str)
+    (he : h.contentEncoding = some enc) (hne : enc ≠ []) (hu : r.getHandler enc = .error .compression) :
+    ∀ b, readRequestBody w r sup h wire ≠ .ok b := by
+  intro b hr
+  obtain ⟨_, codec, _, _, hg, _, _⟩ := decoded_only_by_declared w r sup h wire b enc hr he hne
+  rw [hu] at hg; cases hg
+
+/-- … and a corrupt coding: when the registered decoder rejects the framed payload the reader raises the codec's
+    error — whatever the framing (chunked or Content-Length) -/
+theorem corrupt_rejected (w : Nat) (r : Registry) (sup : List Str) (h : Hdrs) (wire payload rest : Bytes) (n : Int) (enc : Str)
+    (codec : Codec) (he : h.contentEncoding = some enc) (hne : enc ≠ []) (hen : (r.effective sup).contains enc = true)
+    (hg : r.getHandler enc = .ok codec)
+    (hframe : (h.isChunked = true ∧ dechunk w wire = .ok (payload, rest)) ∨
+              (h.isChunked = false ∧ h.contentLength = some (.val n) ∧ payload = pyRead wire n))
+    (hbad : codec.dec payload = none) :
+    readRequestBody w r sup h wire = .error .codec := by
+  have hemp : enc.isEmpty = false := by cases enc with | nil => exact absurd rfl hne | cons a l => rfl
+  have hd : decodeBody r sup h (some payload) = .error .codec := by
+    have hmem : enc ∈ r.effective sup := by simpa using hen
+    simp [decodeBody, he, hemp, hmem, Registry.decompress, hg, hbad]
+  unfold readRequestBody
+  rcases hframe with ⟨h1, h2⟩ | ⟨h1, h2, h3⟩
+  · simp only [h1, if_true, h2]; exact hd
+  · subst h3; simp only [h1, Bool.false_eq_true, if_false, h2]; exact hd
+
+/-- the response reader applies the same rule -/
+theorem response_decoded_only_by_declared (r : Registry) (sup : List Str) (h : Hdrs) (payload : Bytes) (b : Option Bytes)
+    (enc : Str) (hr : readResponseBody r sup h payload = .ok b) (he : h.contentEncoding = some enc) (hne : enc ≠ []) :
+    (r.effective sup).contains enc = true ∧
+      ∃ codec p y, r.getHandler enc = .ok codec ∧ codec.dec p = some y ∧ b = some y := by
+  obtain ⟨body, hd⟩ := readResponseBody_ok r sup h payload b hr
+  obtain ⟨hc, codec, p, y, _, hg, hy, hb⟩ := decodeBody_ok r sup h body b enc hd he hne
+  exact ⟨hc, codec, p, y, hg, hy, hb⟩
+
+/-! ### the registry of the running code (generated) -/
+
+/-- every available encoding is lower case ASCII, non-empty, registered under exactly that name (so `get_handler`
+    finds it), no name is registered twice, and the size-line window is the 16 bytes the theorems are instantiated with -/
+theorem generated_registry_wf :
+    (∀ n ∈ Generated.Codings.available, n ≠ [] ∧ n.map asciiLower = n ∧ n ∈ Generated.Codings.handlerNames) ∧
+    Generated.Codings.handlerNames.Nodup ∧ Generated.Codings.available.Nodup ∧
+    Generated.Codings.handlerNames.length = Generated.Codings.handlerClasses.length ∧
+    Generated.Codings.headerWindow = 16 := by
+  decide
+
+/-! ### non-vacuity -/
+
+/-- a codec satisfying the assumption (the one the driver and the harness install for the correspondence runs) -/
+def toy (tag : Nat) : Codec where
+  enc x := tag :: x.reverse
+  dec
+    | t :: y => if t = tag then some y.reverse else none
+    | [] => none
+
+def toyRegistry : Registry := ⟨[([103, 122, 105, 112], toy 65)], [[103, 122, 105, 112]]⟩
+
+example : CodecsLossless toyRegistry ∧ NamesNonEmpty toyRegistry := by
+  constructor
+  · intro e he x
+    simp only [toyRegistry, List.mem_singleton] at he
+    subst he; simp [toy]
+  · intro e he
+    simp only [toyRegistry, List.mem_singleton] at he
+    subst he; simp
+
+example : mkChunks 3 [104, 101, 108, 108, 111] = [51, 13, 10, 104, 101, 108, 13, 10, 50, 13, 10, 108, 111, 13, 10, 48, 13, 10, 13, 10] := by
+  decide
+
+example : dechunk 16 (mkChunks 3 [104, 101, 108, 108, 111] ++ [71]) = .ok ([104, 101, 108, 108, 111], [71]) := by decide
+
+/-- body cut inside a chunk, and a size line without CRLF: `DechunkError` (the pinned tree looped / raised AttributeError) -/
+example : dechunk 16 [53, 13, 10, 97, 98] = .error .dechunk ∧ dechunk 16 [53] = .error .dechunk := by decide
+
+/-- `gzip;q=0, x-lz4;q=0.5` -/
+example : parseHeader [103, 122, 105, 112, 59, 113, 61, 48, 44, 32, 120, 45, 108, 122, 52, 59, 113, 61, 48, 46, 53]
+    = [[120, 45, 108, 122, 52]] := by decide
+
+example : weightOf [103, 122, 105, 112, 59, 113, 61, 48, 44, 32, 120, 45, 108, 122, 52, 59, 113, 61, 48, 46, 53]
+    [103, 122, 105, 112] = some ⟨false, 0, 0⟩ := by decide
+
+/-- a complete exchange with the toy codec, chunk size 2 -/
+example : ∃ h wire, sendRequest toyRegistry [[103, 122, 105, 112]] [[103, 122, 105, 112]] 2 [1, 2, 3] = .ok (h, wire) ∧
+    h.contentEncoding = some [103, 122, 105, 112] ∧ readRequestBody 16 toyRegistry [] h wire = .ok (some [1, 2, 3]) := by
+  refine ⟨_, _, rfl, rfl, ?_⟩
+  decide
 
 end Sdc.C17
